@@ -1184,6 +1184,15 @@ func (path *Path) MarshalJSON() ([]byte, error) {
 // Return 0 if they are equal
 // Return < 0 if rhs is preferred over the lhs
 func (lhs *Path) Compare(rhs *Path) int {
+	// the first step of the decision process: a route kept under
+	// long-lived graceful restart is never as good as one that is not
+	lStale, rStale := lhs.IsLLGRStale(), rhs.IsLLGRStale()
+	if !lStale && rStale {
+		return 1
+	} else if lStale && !rStale {
+		return -1
+	}
+
 	if lhs.IsLocal() && !rhs.IsLocal() {
 		return 1
 	} else if !lhs.IsLocal() && rhs.IsLocal() {
